@@ -129,7 +129,11 @@ class Tr:
         raise Untranslatable("condition " + ast.unparse(node)[:60])
 
 
+_TRACE = {"cur": None, "src": {}}      # which qualified names each fragment looked up (tools/tie_inventory.py)
+
+
 def find_func(tree, qual):
+    _TRACE["src"].setdefault(_TRACE["cur"], set()).add(qual)
     parts = qual.split(".")
     body = tree.body
     node = None
@@ -188,6 +192,7 @@ def gen(repo):
     status = {}
 
     def emit(name, fn):
+        _TRACE["cur"] = name
         try:
             out.append(fn())
             status[name] = "ok"
@@ -607,6 +612,8 @@ def main():
             f.write(text)
     with open(os.path.join(a.out, "code_status.json"), "w") as f:
         json.dump(status, f, indent=0, sort_keys=True)
+    with open(os.path.join(a.out, "code_sources.json"), "w") as f:
+        json.dump({str(k): sorted(v) for k, v in _TRACE["src"].items()}, f, indent=0, sort_keys=True)
     print(json.dumps({"code_changed": old != text, "untranslatable": {k: v for k, v in status.items() if v != "ok"}}))
 
 
